@@ -485,12 +485,20 @@ Fixpoint zmin_list (l : list Z) : option Z :=
   | x :: r => match zmin_list r with Some m => Some (Z.min x m) | None => Some x end
   end.
 
-(* harness operations.  PutTtl builds the Answer first (Answer.__init__ reads the clock:
-   expiration = time.time() + minimum ttl), then puts it. *)
+(* harness operations.  HPutAns builds the Answer first (Answer.__init__ reads the clock once:
+   `mk t` is the answer made at reading t, or the exception its constructor raises), then puts it.
+   Codes 2 / 12 describe the answer by the TTLs its lifetime is the minimum of; the message-level
+   derivation (QueryMessage.resolve_chaining) is code 13 of Model/CacheAnsM.v. *)
 Inductive hop :=
 | HCall (c : call) (ds : list Z)
-| HPutTtl (k vid : Z) (ttls : list Z) (ds : list Z)
+| HPutAns (k : Z) (mk : Z -> res ans) (ds : list Z)
 | HAdv (d : Z).
+
+Definition ans_of_ttls (vid : Z) (ttls : list Z) (t : Z) : res ans :=
+  match zmin_list ttls with
+  | None => Internal eBadCase
+  | Some ttl => Ok (mkAns vid (t + ttl))
+  end.
 
 Definition hop_of_obs (o : obs) : option hop :=
   match o with
@@ -498,12 +506,12 @@ Definition hop_of_obs (o : obs) : option hop :=
   | L [I 1; I k; I vid; I e; L ds] => option_map (HCall (Put k (mkAns vid e))) (zs_of_obs ds)
   | L [I 2; I k; I vid; L ttls; L ds] =>
       match zs_of_obs ttls, zs_of_obs ds with
-      | Some t, Some d => Some (HPutTtl k vid t d)
+      | Some t, Some d => Some (HPutAns k (ans_of_ttls vid t) d)
       | _, _ => None
       end
   | L [I 12; I k; I vid; L ttls; L ds] =>          (* negative answer: CNAME TTLs, SOA TTL, SOA minimum *)
       match zs_of_obs ttls, zs_of_obs ds with
-      | Some t, Some d => Some (HPutTtl k vid t d)
+      | Some t, Some d => Some (HPutAns k (ans_of_ttls vid t) d)
       | _, _ => None
       end
   | L [I 3; I k; L ds] => option_map (HCall (Flush (Some k))) (zs_of_obs ds)
@@ -522,6 +530,7 @@ Section HRun.
   Context {St : Type}.
   Variable step : call -> St -> clk -> res (ret * St * clk).
   Variable show : St -> Z -> obs.
+  Variable decode : obs -> option hop.
 
   Definition hstep (h : hop) (w : St * Z) : res (ret * (St * Z)) :=
     match h with
@@ -529,14 +538,11 @@ Section HRun.
     | HCall c ds =>
         do x <- step c (fst w) (mkClk (snd w) ds);
         let '(r, s', k') := x in Ok (r, (s', now k'))
-    | HPutTtl key vid ttls ds =>
-        match zmin_list ttls with
-        | None => Internal eBadCase
-        | Some ttl =>
-            let (t, k1) := tick (mkClk (snd w) ds) in
-            do x <- step (Put key (mkAns vid (t + ttl))) (fst w) k1;
-            let '(r, s', k') := x in Ok (r, (s', now k'))
-        end
+    | HPutAns key mk ds =>
+        let (t, k1) := tick (mkClk (snd w) ds) in
+        do a <- mk t;
+        do x <- step (Put key a) (fst w) k1;
+        let '(r, s', k') := x in Ok (r, (s', now k'))
     end.
 
   (* one observation per step; the first failing step ends the run with its error code *)
@@ -544,7 +550,7 @@ Section HRun.
     match ops with
     | [] => []
     | o :: r =>
-        match hop_of_obs o with
+        match decode o with
         | None => [E eBadCase]
         | Some h =>
             match hstep h w with
@@ -559,20 +565,22 @@ End HRun.
 (* case:  L [I 0; I interval; I t0; L ds0; L ops]     Cache(cleaning_interval) created at clock t0
           L [I 1; I max_size; I t0; L ops]            LRUCache(max_size)
    (a trailing element, if any, is harness-only data about the concurrent schedule) *)
-Definition run (c : obs) : obs :=
+Definition run_with (decode : obs -> option hop) (c : obs) : obs :=
   match c with
   | L (I 0 :: I interval :: I t0 :: L ds0 :: L ops :: _) =>
       match zs_of_obs ds0 with
       | None => E eBadCase
       | Some ds =>
           let (c0, k0) := cache_init interval (mkClk t0 ds) in
-          L (obs_of_cache c0 (now k0) :: hrun cache_step obs_of_cache ops (c0, now k0))
+          L (obs_of_cache c0 (now k0) :: hrun cache_step obs_of_cache decode ops (c0, now k0))
       end
   | L (I 1 :: I max_size :: I t0 :: L ops :: _) =>
       match lru_init max_size with
-      | Ok st => L (obs_of_lru st t0 :: hrun lru_step obs_of_lru ops (st, t0))
+      | Ok st => L (obs_of_lru st t0 :: hrun lru_step obs_of_lru decode ops (st, t0))
       | Lib e => E e
       | Internal e => E e
       end
   | _ => E eBadCase
   end.
+
+Definition run : obs -> obs := run_with hop_of_obs.
